@@ -85,6 +85,14 @@ func c15Build(c c15Case, now time.Time) *w.State {
 		}
 	case "ghost":
 		prev = []string{"ghost"}
+	case "all-but-first":
+		for i := 1; i < len(c.Nodes); i++ {
+			prev = append(prev, fmt.Sprintf("n%d", i+1))
+		}
+	case "all": // e.g. replicas were lowered during the canary: the stored list is longer than what is asked for now
+		for i := range c.Nodes {
+			prev = append(prev, fmt.Sprintf("n%d", i+1))
+		}
 	}
 	if c.Prev != "empty" {
 		eds.Status.Canary = &v1.ExtendedDaemonSetStatusCanary{ReplicaSet: "foo-b", Nodes: prev}
@@ -158,7 +166,7 @@ func TestC15(t *testing.T) {
 			for _, r := range []string{"1", "2", fmt.Sprint(n), fmt.Sprint(n + 1), "25%", "50%", "100%"} {
 				for _, sel := range []bool{false, true} {
 					for _, keys := range []bool{false, true} {
-						for _, prev := range []string{"empty", "valid", "invalid", "ghost"} {
+						for _, prev := range []string{"empty", "valid", "invalid", "ghost", "all", "all-but-first"} {
 							cases = append(cases, c15Case{append([]c15Node{}, cur...), r, sel, keys, prev, ""})
 							if !keys && !sel { // a paused canary is still an active canary: the list must still be completed
 								cases = append(cases, c15Case{append([]c15Node{}, cur...), r, sel, keys, prev, "annotation"})
@@ -195,5 +203,5 @@ func TestC15(t *testing.T) {
 	run.Sample(cases[len(cases)/3])
 	run.Assumptions = []string{"a percentage resolves against the number of eligible nodes (= status.desired in the lattice); either base is accepted in the world monitor",
 		"when the reconcile reports an error nothing is required of the list in that step"}
-	exit(run.Finish(fmt.Sprintf("lattice: every vector of 1..%d nodes over 12 node variants (zone a/b, pool label, tainted, restart history) x replicas {1,2,N,N+1,25%%,50%%,100%%} x canary nodeSelector x anti-affinity keys x previous list {none, valid, now-invalid, vanished} x paused {no, by annotation, by replica-set condition} through one real ExtendedDaemonSet Reconcile; BFS of canary scenarios with node deletion / tainting / addition while the canary runs; non-trivial = distinct (shape, outcome)", maxN)))
+	exit(run.Finish(fmt.Sprintf("lattice: every vector of 1..%d nodes over 12 node variants (zone a/b, pool label, tainted, restart history) x replicas {1,2,N,N+1,25%%,50%%,100%%} x canary nodeSelector x anti-affinity keys x previous list {none, valid, now-invalid, vanished, every node (longer than the replicas asked for now)} x paused {no, by annotation, by replica-set condition} through one real ExtendedDaemonSet Reconcile; BFS of canary scenarios with node deletion / tainting / addition while the canary runs; non-trivial = distinct (shape, outcome)", maxN)))
 }
